@@ -178,6 +178,9 @@ class StmtMixin:
                     break
             el = self.iter_elem(it, k, s.iter)
             self.bind_target(s.target, el)
+            if self.cfg.loop_marks and isinstance(s.iter, ast.Name) and it0.t and it0.t[0] == "list":
+                # iteration over a local list variable: a rule may want to treat it as taking the head of a work list
+                self.emit(Event("mark", "for-over-list", it0, const(k), (el,), {"__var__": const(s.iter.id)}, site=site))
             fr.loop.append(("for", site, k))
             marker = V(("iter", loopid, k), (), it.dep)
             fr.ctrl.append((marker, True))
@@ -240,11 +243,70 @@ class StmtMixin:
         raise _Continue()
 
     def st_With(self, s):
+        managers = []
         for item in s.items:
             v = self.ev(item.context_expr)
+            ent = v
+            cl = [c for c in self.obj_classes(v) if c in self.M.classes]
+            if len(cl) == 1:
+                c = self.M.classes[cl[0]]
+                ex = self.M.lookup(c, "__exit__")
+                if ex is not None:
+                    en = self.M.lookup(c, "__enter__")
+                    if en is not None:
+                        ent = self.call_method(en, v, [], {}, s, cl[0])
+                    managers.append((v, cl[0], ex))
             if item.optional_vars is not None:
-                self.bind_target(item.optional_vars, v)
-        self.exec_block(s.body)
+                self.bind_target(item.optional_vars, ent)
+        if not managers:
+            self.exec_block(s.body)
+            return
+        # a context manager defined in the analysed package: its __exit__ sees what the body raises and may translate or
+        # swallow it -- the classes it mentions are the ones worth distinguishing in the body (as for an except clause)
+        from .px_core import BUILTIN_EXC_BASES
+        fr = self.frames[-1]
+        names = set()
+        for _, _, ex in managers:
+            for n in ast.walk(ex.node):
+                if isinstance(n, ast.Name) and (n.id in BUILTIN_EXC_BASES or n.id in self.M.classes):
+                    names.add(n.id)
+        fr.try_catch.append(frozenset(names) if names else frozenset(["*"]))
+        try:
+            try:
+                self.exec_block(s.body)
+            finally:
+                fr.try_catch.pop()
+        except _Raise as r:
+            info = r.exc
+            for v, cn, ex in reversed(managers):
+                t = ("caught", info.cls, info.site, self.fresh(s))
+                self.caught[t] = info
+                excv = V(t, [("excinst", info.cls)], info.ctrl)
+                prev = fr.cur_exc
+                fr.cur_exc = info
+                fr.in_handler += 1
+                marker = V(("handler", info.cls, info.site), (), info.ctrl)
+                fr.ctrl.append((marker, True))
+                self.emit(Event("mark", "handler:" + info.cls, None, None, (), site=self.here(s)))
+                try:
+                    res = self.call_method(ex, v, [V(("exccls", info.cls), [("cls", info.cls)]), excv, NONE], {}, s, cn)
+                finally:
+                    fr.ctrl.pop()
+                    fr.in_handler -= 1
+                    fr.cur_exc = prev
+                if is_const(res):
+                    swallowed = bool(res.t[1])
+                else:
+                    swallowed = self.decide(("truthy", res.t))
+                if swallowed:
+                    return
+            raise
+        except (_Return, _Break, _Continue):
+            for v, cn, ex in reversed(managers):
+                self.call_method(ex, v, [NONE, NONE, NONE], {}, s, cn)
+            raise
+        for v, cn, ex in reversed(managers):
+            self.call_method(ex, v, [NONE, NONE, NONE], {}, s, cn)
 
     def st_FunctionDef(self, s):
         fr = self.frames[-1]
